@@ -211,3 +211,71 @@ def ref_cfg_table(js, word):
 
 def ref_cfg_accepts(js, word):
     return (js['S'], 0, len(word)) in ref_cfg_table(js, word)
+
+
+# ------------------------------------------------------------------ pushdown automata
+def mk_pda(js, mod=None):
+    if mod is None:
+        import gambatools.pda as mod
+    delta = defaultdict(set)
+    for p, a, u, q, v in js['delta']:
+        delta[(p, a, u)].add((q, v))
+    return mod.PDA(set(js['Q']), set(js['Sigma']), set(js['Gamma']), delta, js['q0'], set(js['F']), js['epsilon'])
+
+
+def pda_json_of(P):
+    return {'Q': sorted(P.Q), 'Sigma': sorted(P.Sigma), 'Gamma': sorted(P.Gamma), 'epsilon': P.epsilon, 'q0': P.q0, 'F': sorted(P.F),
+            'delta': sorted([p, a, u, q, v] for (p, a, u), S in P.delta.items() for (q, v) in S)}
+
+
+def ref_pda_closure(js, confs, max_confs=2000, maxdepth=40):
+    """all configurations reachable by epsilon moves; -> (set, complete?)"""
+    eps = js['epsilon']
+    seen = set(confs)
+    todo = list(confs)
+    while todo:
+        p, st = todo.pop(0)
+        for p1, a, u, q, v in js['delta']:
+            if p1 != p or a != eps:
+                continue
+            if u != eps and not (st and st[-1] == u):
+                continue
+            st1 = st if u == eps else st[:-1]
+            if v != eps:
+                st1 = st1 + (v,)
+            c = (q, st1)
+            if c not in seen:
+                if len(seen) >= max_confs or len(st1) > maxdepth:
+                    return seen, False
+                seen.add(c)
+                todo.append(c)
+    return seen, True
+
+
+def ref_pda_step(js, confs, a):
+    eps = js['epsilon']
+    out = set()
+    for p, st in confs:
+        for p1, a1, u, q, v in js['delta']:
+            if p1 != p or a1 != a:
+                continue
+            if u != eps and not (st and st[-1] == u):
+                continue
+            st1 = st if u == eps else st[:-1]
+            if v != eps:
+                st1 = st1 + (v,)
+            out.add((q, st1))
+    return out
+
+
+def ref_pda_run(js, w, max_confs=2000):
+    """-> (accepted?, complete?, sizes of the closures computed)"""
+    confs, ok = ref_pda_closure(js, {(js['q0'], ())}, max_confs)
+    sizes = [len(confs)]
+    complete = ok
+    for a in w:
+        confs = ref_pda_step(js, confs, a)
+        confs, ok = ref_pda_closure(js, confs, max_confs)
+        complete = complete and ok
+        sizes.append(len(confs))
+    return any(q in set(js['F']) for q, _ in confs), complete, sizes
